@@ -40,6 +40,25 @@ func VerifHarness_OfflineUUID() {
 	zz.Reach("offline-uuid")
 }
 
+// Names around and beyond the 16-character limit (offline UUIDs are computed for whatever name the
+// login carries): 14 fixed bytes followed by 0..4 arbitrary bytes.
+func VerifHarness_OfflineUUIDLong() {
+	zz.MaxLen(4)
+	name := "Abcdefghij0123" + zz.String(zz.Choose(5))
+	digest := zz.Bytes(16)
+	var fed []byte
+	zz.Replace("crypto/md5.Sum", func(data []byte) [16]byte {
+		fed = append([]byte{}, data...)
+		var out [16]byte
+		copy(out[:], digest)
+		return out
+	})
+	id := OfflinePlayerUUID(name)
+	zz.Assert(string(fed) == "OfflinePlayer:"+name, "the offline UUID of a long name is not derived from the whole name")
+	zz.Assert(id[6]>>4 == 3 && id[8]>>6 == 2 && id[0] == digest[0] && id[15] == digest[15], "the offline UUID of a long name is not the version-3 form of the digest")
+	zz.Reach("offline-uuid-long")
+}
+
 func VerifMutant_OfflineUUID() {
 	digest := zz.Bytes(16)
 	zz.Replace("crypto/md5.Sum", func(data []byte) [16]byte {
